@@ -20,10 +20,14 @@
 (* AlphaEq says this preserves well-formedness and every token's binding.  *)
 (*                                                                         *)
 (* Feature groups are switched by the constants Kinds (scope kinds), Ops   *)
-(* (event operations) and ScopeNames.                                      *)
+(* (event operations), ScopeNames and Libs (multi-module part: a second    *)
+(* module `lib` whose top-level names the first module reaches through the *)
+(* import forms; RenameLib renames such a name from any of its tokens,     *)
+(* RenameModule renames the module itself).                                *)
 (*                                                                         *)
-(* All operators take the program P = [scopes, ev] as a parameter so that  *)
-(* the same rule is evaluated on the program before and after Rename.      *)
+(* All operators take the program P = [scopes, ev, lib, libname] as a      *)
+(* parameter so that the same rule is evaluated on the program before and  *)
+(* after Rename.                                                           *)
 (***************************************************************************)
 EXTENDS Naturals, Sequences, FiniteSets
 
@@ -34,14 +38,18 @@ CONSTANTS Names,       \* identifiers used by name events, e.g. {"a","b"}
           Ops,         \* enabled event operations (see OpsOf)
           ScopeNames,  \* names a def / class may take (subset of Names);
                        \*   "-" (a unique name outside Names) is always allowed
+          Libs,        \* layouts of the second module: subset of
+                       \*   {"none", "module", "package", "relative", "external"}
+                       \*   ("external": lib lies outside the project, on its path)
+          ModFresh,    \* fresh module names: targets of RenameModule
           MaxScopes,   \* bound on Len(scopes)
           MaxEv,       \* bound on Cardinality(ev)
           DoRename,    \* BOOLEAN: Rename enabled
           FreshOnly    \* BOOLEAN: Rename only to a fresh name (FALSE: sensitivity run)
 
-VARIABLES scopes, ev, phase, ren, pre
+VARIABLES scopes, ev, lib, libname, phase, ren, pre
 
-vars == <<scopes, ev, phase, ren, pre>>
+vars == <<scopes, ev, lib, libname, phase, ren, pre>>
 
 NoName == "-"
 AllNames == Names \cup Fresh
@@ -51,17 +59,27 @@ StmtBindOps == {"bind", "import", "importfrom", "for", "with", "except",
                 "aug", "del", "matchcap", "walrus", "annbind"}
 DeclOps     == {"global", "nonlocal"}
 Decoys      == {"cmtdecoy", "strdecoy"}       \* the identifier inside a comment / a string
+\* Multi-module part.  Scope 0 is the top level of the second module `lib`:
+\*   libdef    `n = ..` at the top level of lib
+\*   libuse    a reference to n at the top level of lib
+\* and the first module reaches lib's names through
+\*   fromlib   `from lib import n`       binds n in s: an alias of lib's n
+\*   fromlibas `from lib import n as q`  the token n is lib's n (q is not in Names)
+\*   modattr   `import lib` .. `lib.n`   an attribute reference to lib's n
+\*   asattr    `import lib as q` .. `q.n`
+LibOps      == {"libdef", "libuse"}
+LibRefOps   == {"fromlib", "fromlibas", "modattr", "asattr"}
 \* operations allowed in a scope of the given kind
 OpsOf(kind) ==
-  CASE kind = "module"   -> StmtBindOps \cup {"use", "fuse"} \cup Decoys
-    [] kind = "function" -> StmtBindOps \cup ParamOps \cup DeclOps
+  CASE kind = "module"   -> StmtBindOps \cup {"use", "fuse"} \cup Decoys \cup LibRefOps
+    [] kind = "function" -> StmtBindOps \cup ParamOps \cup DeclOps \cup LibRefOps
                               \cup {"use", "fuse", "defuse", "kwcall"} \cup Decoys
     [] kind = "class"    -> StmtBindOps \cup DeclOps \cup {"use", "fuse"} \cup Decoys
     [] kind = "comp"     -> {"for", "use", "walrus", "iteruse"}
     [] kind = "lambda"   -> ParamOps \cup {"use", "walrus", "defuse"}
     [] OTHER             -> {}
 
-Prog == [scopes |-> scopes, ev |-> ev]
+Prog == [scopes |-> scopes, ev |-> ev, lib |-> lib, libname |-> libname]
 
 -----------------------------------------------------------------------------
 (* structure *)
@@ -88,7 +106,7 @@ NonlocalDecl(P, s, n) == Has(P, s, "nonlocal", n)
 HasParam(P, s, n)  == \E op \in ParamOps : Has(P, s, op, n)
 
 \* n is syntactically bound in the block of s (symtable: DEF_BOUND)
-BindingOps == StmtBindOps \cup ParamOps
+BindingOps == StmtBindOps \cup ParamOps \cup {"fromlib"}
 BindsIn(P, s, n) ==
   \/ \E e \in P.ev : /\ e[3] = n
                      /\ e[2] \in BindingOps
@@ -146,15 +164,65 @@ UsedNames(P) == ({ e[3] : e \in P.ev } \cup { SName(P, i) : i \in 2..NS(P) }) \ 
 BScope(P, e) ==
   LET s == e[1]  op == e[2]  n == e[3] IN
   CASE op \in Decoys                   -> 0
+    [] op \in LibOps                   -> 0
+    [] op \in LibRefOps \ {"fromlib"}  -> 0
     [] op \in {"iteruse", "defuse"}    -> Resolve(P, Parent(P, s), n)
     [] op = "walrus" /\ IsComp(P, s)   -> Resolve(P, Hoist(P, s), n)
     [] op = "kwcall"                   -> s
     [] OTHER                           -> Resolve(P, s, n)
 
-Determined(P, e) == e[2] \notin Decoys /\ BScope(P, e) # 0
+\* Class bodies look names up dynamically (LOAD_NAME: class namespace, then
+\* globals).  Blocks are straight-line in the order declarations, binders, nested
+\* scopes, references, `except` / `del`; a binder of StrongOps (or a nested def /
+\* class) has bound the name when the references run.  A reference in a class block
+\* whose name is class-local only through the other binders (except .. as n, del n,
+\* n: int, n += ..) reads the global at run time although the symbol table calls
+\* it local: its binding is not statically determined, and neither is any other
+\* token of that name for the purposes of occurrence finding and renaming.
+StrongOps == {"bind", "import", "importfrom", "for", "with", "walrus", "matchcap"}
+RefOps    == {"use", "fuse", "aug", "iteruse", "defuse", "call"}
+EvScope(P, e) ==
+  CASE e[2] \in {"iteruse", "defuse"}          -> Parent(P, e[1])
+    [] e[2] = "walrus" /\ IsComp(P, e[1])      -> Hoist(P, e[1])
+    [] OTHER                                   -> e[1]
+\* (a default value or a first iterable is evaluated where its def / comprehension
+\*  stands: only earlier nested defs have bound their names by then)
+StrongIn(P, e, s, n) ==
+  \/ \E op \in StrongOps : Has(P, s, op, n)
+  \/ \E i \in 2..NS(P) : /\ Parent(P, i) = s /\ SName(P, i) = n
+                          /\ IF e[2] \in {"defuse", "iteruse"} THEN i < e[1] ELSE TRUE
+DynRef(P, e) ==
+  /\ e[2] \in RefOps
+  /\ LET s == EvScope(P, e) IN
+       /\ Kind(P, s) = "class"
+       /\ BindsIn(P, s, e[3])
+       /\ ~GlobalDecl(P, s, e[3]) /\ ~NonlocalDecl(P, s, e[3])
+       /\ ~StrongIn(P, e, s, e[3])
+Dyn(P, n) == \E e \in AllEv(P) : e[3] = n /\ DynRef(P, e)
+
+\* `from lib import n` in scope s makes the local n of s an alias of lib's n.  A
+\* rename that keeps the program running without introducing `as` has to treat
+\* them as one binding (rope does: imported-name transparency), so the class of
+\* lib's n is: its tokens in lib, the attribute references, the imported-name
+\* tokens, and the whole class of every alias <<s, n>>.
+IsLibTok(e) == e[2] \in LibOps \cup LibRefOps
+AliasScopes(P, n) == { s \in ScopeIds(P) : Has(P, s, "fromlib", n) }
+InLib(P, e) ==
+  /\ e[2] \notin Decoys
+  /\ \/ IsLibTok(e)
+     \/ BScope(P, e) \in AliasScopes(P, e[3])
+LibOcc(P, n) == { e \in AllEv(P) : e[3] = n /\ InLib(P, e) }
+LibDefined(P, n) == <<0, "libdef", n>> \in P.ev
+
+Determined(P, e) ==
+  /\ e[2] \notin Decoys
+  /\ ~Dyn(P, e[3])
+  /\ IF IsLibTok(e) THEN LibDefined(P, e[3]) ELSE BScope(P, e) # 0
 
 \* the binding partition: all tokens of binding <<r, n>>
-Occ(P, r, n) == { e \in AllEv(P) : e[3] = n /\ e[2] \notin Decoys /\ BScope(P, e) = r }
+Occ(P, r, n) == { e \in AllEv(P) : e[3] = n /\ e[2] \notin Decoys /\ ~IsLibTok(e) /\ BScope(P, e) = r }
+\* the class of a token: lib's name, or the binding of its scope
+ClassOf(P, e) == IF InLib(P, e) THEN LibOcc(P, e[3]) ELSE Occ(P, BScope(P, e), e[3])
 
 \* the name of def s is bound exactly once (by that def): a call through the
 \* name right after the def reaches s whatever the control flow
@@ -187,15 +255,31 @@ WellFormed(P) ==
             /\ (Has(P, s, "walrus", n) /\ IsComp(P, s)) =>
                  /\ Kind(P, Hoist(P, s)) # "class"
                  /\ \A c \in CompChain(P, s) : ~Has(P, c, "for", n)
+  \* multi-module part
+  /\ (P.lib = "none") => \A e \in P.ev : ~(e[2] \in LibOps \cup LibRefOps)
+  /\ \A n \in AllNames :
+       \* a reference to lib's n needs the definition (ImportError otherwise)
+       /\ (\E e \in P.ev : e[2] \in (LibRefOps \cup {"libuse"}) /\ e[3] = n) => LibDefined(P, n)
+       /\ \A s \in ScopeIds(P) :
+            Has(P, s, "fromlib", n) =>
+              \* the alias is the only binder of n in s and nothing redirects it
+              /\ ~GlobalDecl(P, s, n) /\ ~NonlocalDecl(P, s, n)
+              /\ \A op \in (StmtBindOps \cup ParamOps) : ~Has(P, s, op, n)
+              /\ \A i \in 2..NS(P) : ~(Parent(P, i) = s /\ SName(P, i) = n)
+              /\ \A d \in 2..NS(P) : ~(IsComp(P, d) /\ Hoist(P, d) = s /\ Has(P, d, "walrus", n))
+              /\ \A t \in 2..NS(P) : (t # s /\ (GlobalDecl(P, t, n) \/ NonlocalDecl(P, t, n)))
+                                        => Resolve(P, t, n) # s
 
 -----------------------------------------------------------------------------
 (* building programs *)
 Init ==
   /\ scopes = << [kind |-> "module", parent |-> 0, name |-> NoName] >>
   /\ ev = {}
+  /\ lib \in Libs
+  /\ libname = "lb"
   /\ phase = "build"
-  /\ ren = [scope |-> 0, old |-> NoName, new |-> NoName]
-  /\ pre = [scopes |-> << >>, ev |-> {}]
+  /\ ren = [kind |-> "none", scope |-> 0, old |-> NoName, new |-> NoName]
+  /\ pre = [scopes |-> << >>, ev |-> {}, lib |-> "none", libname |-> "lb"]
 
 \* scopes are added in textual order: the parent of a new scope is the last
 \* scope or one of its ancestors.  def / class are statements: they nest in
@@ -211,7 +295,7 @@ AddScope(kind, par, name) ==
             /\ name \in ScopeNames \cup {NoName}
        ELSE name = NoName
   /\ scopes' = Append(scopes, [kind |-> kind, parent |-> par, name |-> name])
-  /\ UNCHANGED <<ev, phase, ren, pre>>
+  /\ UNCHANGED <<ev, lib, libname, phase, ren, pre>>
 
 AddEvent(s, op, n) ==
   /\ phase = "build"
@@ -221,7 +305,18 @@ AddEvent(s, op, n) ==
   /\ n \in Names
   /\ <<s, op, n>> \notin ev
   /\ ev' = ev \cup {<<s, op, n>>}
-  /\ UNCHANGED <<scopes, phase, ren, pre>>
+  /\ UNCHANGED <<scopes, lib, libname, phase, ren, pre>>
+
+\* top level of the second module (scope 0)
+AddLibEvent(op, n) ==
+  /\ phase = "build"
+  /\ lib # "none"
+  /\ Cardinality(ev) < MaxEv
+  /\ op \in Ops \cap LibOps
+  /\ n \in Names
+  /\ <<0, op, n>> \notin ev
+  /\ ev' = ev \cup {<<0, op, n>>}
+  /\ UNCHANGED <<scopes, lib, libname, phase, ren, pre>>
 
 -----------------------------------------------------------------------------
 (* Rename: rewrite exactly the tokens of one binding *)
@@ -235,20 +330,77 @@ Rename(r, n, new) ==
   /\ n \in Names
   /\ new \in RenTargets \ {n}
   /\ Occ(Prog, r, n) # {}
+  /\ ~Dyn(Prog, n)                          \* statically determined bindings only
+  /\ r \notin AliasScopes(Prog, n)          \* an alias is renamed with lib's name
   /\ LET occ == Occ(Prog, r, n) IN
        /\ ev' = { IF <<e[1], e[2], e[3], 0>> \in occ THEN <<e[1], e[2], new>> ELSE e : e \in ev }
        /\ scopes' = [i \in 1..Len(scopes) |->
                        IF i >= 2 /\ <<scopes[i].parent, "defname", scopes[i].name, i>> \in occ
                          THEN [scopes[i] EXCEPT !.name = new] ELSE scopes[i]]
   /\ phase' = "renamed"
-  /\ ren' = [scope |-> r, old |-> n, new |-> new]
+  /\ ren' = [kind |-> "name", scope |-> r, old |-> n, new |-> new]
   /\ pre' = Prog
+  /\ UNCHANGED <<lib, libname>>
+
+\* rename a top-level name of the second module, asked from any of its tokens
+RenameLib(n, new) ==
+  /\ phase = "build"
+  /\ DoRename
+  /\ WellFormed(Prog)
+  /\ n \in Names
+  /\ new \in RenTargets \ {n}
+  /\ LibDefined(Prog, n)
+  /\ ~Dyn(Prog, n)
+  /\ lib # "external"
+  /\ LET occ == LibOcc(Prog, n) IN
+       /\ ev' = { IF <<e[1], e[2], e[3], 0>> \in occ THEN <<e[1], e[2], new>> ELSE e : e \in ev }
+       /\ scopes' = [i \in 1..Len(scopes) |->
+                       IF i >= 2 /\ <<scopes[i].parent, "defname", scopes[i].name, i>> \in occ
+                         THEN [scopes[i] EXCEPT !.name = new] ELSE scopes[i]]
+  /\ phase' = "renamed"
+  /\ ren' = [kind |-> "lib", scope |-> 0, old |-> n, new |-> new]
+  /\ pre' = Prog
+  /\ UNCHANGED <<lib, libname>>
+
+\* a name whose definition lies outside the project cannot be renamed: the only
+\* program-preserving outcome of the request is that nothing changes (refusal)
+RenameExternal(n, new) ==
+  /\ phase = "build"
+  /\ DoRename
+  /\ WellFormed(Prog)
+  /\ lib = "external"
+  /\ n \in Names
+  /\ new \in RenTargets \ {n}
+  /\ LibDefined(Prog, n)
+  /\ \E e \in ev : e[1] # 0 /\ e[3] = n /\ InLib(Prog, <<e[1], e[2], e[3], 0>>)
+  /\ phase' = "renamed"
+  /\ ren' = [kind |-> "external", scope |-> 0, old |-> n, new |-> new]
+  /\ pre' = Prog
+  /\ UNCHANGED <<scopes, ev, lib, libname>>
+
+\* rename the second module itself (file move + every import of it)
+RenameModule(new) ==
+  /\ phase = "build"
+  /\ DoRename
+  /\ WellFormed(Prog)
+  /\ lib \notin {"none", "external"}
+  /\ new \in ModFresh
+  /\ libname' = new
+  /\ phase' = "renamed"
+  /\ ren' = [kind |-> "module", scope |-> 0, old |-> libname, new |-> new]
+  /\ pre' = Prog
+  /\ UNCHANGED <<scopes, ev, lib>>
 
 AnyAddScope == \E k \in Kinds, p \in 1..Len(scopes), nm \in ScopeNames \cup {NoName} : AddScope(k, p, nm)
 AnyAddEvent == \E s \in 1..Len(scopes), op \in Ops, n \in Names : AddEvent(s, op, n)
+AnyAddLibEvent == \E op \in Ops, n \in Names : AddLibEvent(op, n)
 AnyRename   == \E r \in 1..Len(scopes), n \in Names, new \in AllNames : Rename(r, n, new)
+AnyRenameLib == \E n \in Names, new \in AllNames : RenameLib(n, new)
+AnyRenameModule == \E new \in ModFresh : RenameModule(new)
+AnyRenameExternal == \E n \in Names, new \in AllNames : RenameExternal(n, new)
 
-Next == AnyAddScope \/ AnyAddEvent \/ AnyRename
+Next == AnyAddScope \/ AnyAddEvent \/ AnyAddLibEvent \/ AnyRename \/ AnyRenameLib \/ AnyRenameModule
+          \/ AnyRenameExternal
 
 Spec == Init /\ [][Next]_vars
 
@@ -259,7 +411,8 @@ TypeOK ==
        /\ scopes[i].kind \in Kinds \cup {"module"}
        /\ scopes[i].parent \in 0..(i - 1)
        /\ (i = 1) = (scopes[i].kind = "module")
-  /\ \A e \in ev : e[1] \in 1..Len(scopes) /\ e[3] \in AllNames
+  /\ \A e \in ev : e[1] \in 0..Len(scopes) /\ e[3] \in AllNames /\ (e[1] = 0) = (e[2] \in LibOps)
+  /\ lib \in Libs
   /\ phase \in {"build", "renamed"}
 
 \* C15 ResolveTotal: every (scope, name) resolves to the module, to nothing,
@@ -294,20 +447,23 @@ NonlocalBinds ==
 \* whichever of its members is used to ask
 QueryInvariant ==
   LET P == Prog
-      B == [e \in AllEv(P) |-> BScope(P, e)]
+      C == [e \in AllEv(P) |-> ClassOf(P, e)]
   IN \A e \in AllEv(P) :
-       (e[2] \notin Decoys /\ B[e] # 0) =>
-         LET occ == Occ(P, B[e], e[3]) IN
-           /\ e \in occ
-           /\ \A f \in occ : B[f] = B[e] /\ f[3] = e[3]
+       Determined(P, e) =>
+           /\ e \in C[e]
+           /\ \A f \in C[e] : C[f] = C[e]
 
-\* C02 OccPartition: every determined token is in exactly one class; decoys
-\* and undetermined tokens are in none
+\* C02 OccPartition: every determined token is in exactly one class (the lib
+\* class or the class of one scope); decoys and unbound names are in none
 OccPartition ==
   LET P == Prog IN
   \A e \in AllEv(P) :
-    LET cls == { r \in ScopeIds(P) : e \in Occ(P, r, e[3]) } IN
-      IF Determined(P, e) THEN cls = {BScope(P, e)} ELSE cls = {}
+    LET cls == { r \in ScopeIds(P) : e \in Occ(P, r, e[3]) /\ r \notin AliasScopes(P, e[3]) }
+        inlib == e \in LibOcc(P, e[3]) IN
+      IF e[2] \in Decoys THEN cls = {} /\ ~inlib
+      ELSE IF InLib(P, e) THEN inlib /\ cls = {}
+      ELSE IF BScope(P, e) # 0 THEN cls = {BScope(P, e)} /\ ~inlib
+      ELSE cls = {} /\ ~inlib
 
 \* C15 ResolveStable (action property): adding an event for name m in scope t
 \* changes Resolve(s, n) only if n = m, and then only for scopes s at or below
@@ -335,7 +491,8 @@ AlphaEq ==
             r == ren'.scope
             old == ren'.old
             new == ren'.new
-            occ == Occ(P, r, old)
+            occ == IF ren'.kind = "lib" THEN LibOcc(P, old)
+                   ELSE IF ren'.kind \in {"module", "external"} THEN {} ELSE Occ(P, r, old)
         IN
           /\ WellFormed(Q)
           /\ NS(Q) = NS(P)
@@ -343,7 +500,10 @@ AlphaEq ==
                \A f \in {IF e \in occ THEN <<e[1], e[2], new, e[4]>> ELSE e} :
                  /\ f \in AllEv(Q)
                  /\ BScope(Q, f) = BScope(P, e)
+                 /\ InLib(Q, f) = InLib(P, e)
           /\ Cardinality(AllEv(Q)) = Cardinality(AllEv(P))
+          /\ Q.lib = P.lib
+          /\ Q.libname = (IF ren'.kind = "module" THEN new ELSE P.libname)
           /\ \A s \in ScopeIds(P), n \in UsedNames(P) :
                /\ n \notin {old, new} => /\ Resolve(Q, s, n) = Resolve(P, s, n)
                                          /\ Local(Q, s, n) = Local(P, s, n)
